@@ -79,6 +79,19 @@ type simHTTPSub struct {
 	stop  context.CancelFunc
 }
 
+// simHTTPChain is a submission other than the plain final certificate: the chain as posted, and the entry the log has
+// to derive from it, computed by the harness independently of sunlight.
+type simHTTPChain struct {
+	endpoint string // add-chain | add-pre-chain
+	chain    [][]byte
+	pending  *PendingLogEntry
+}
+
+// simHTTPAlt, when set by a property's harness, replaces some of the HTTP submissions (by id) with other chain shapes;
+// simHTTPExtraRootsPEM are the extra roots those chains need.
+var simHTTPAlt func(id int) *simHTTPChain
+var simHTTPExtraRootsPEM []byte
+
 // simHTTPSubmit posts a chain to add-chain in a goroutine and returns once the
 // handler has either answered or parked its submission in the current pool.
 func (s *simSys) simHTTPSubmit(in *simInst, id int, der []byte) *simHTTPSub {
@@ -88,8 +101,16 @@ func (s *simSys) simHTTPSubmit(in *simInst, id int, der []byte) *simHTTPSub {
 	}
 	e := &simEntry{ID: 2_000_000 + id, Shape: "http-chain", P: &PendingLogEntry{Certificate: der, Issuers: [][]byte{simCA.rootDER}}}
 	body, _ := json.Marshal(map[string]any{"chain": [][]byte{der}})
+	endpoint := "add-chain"
+	if simHTTPAlt != nil {
+		if alt := simHTTPAlt(id); alt != nil {
+			e = &simEntry{ID: 2_000_000 + id, Shape: "http-" + alt.endpoint, P: alt.pending}
+			body, _ = json.Marshal(map[string]any{"chain": alt.chain})
+			endpoint = alt.endpoint
+		}
+	}
 	ctx, cancel := context.WithCancel(context.Background())
-	req := httptest.NewRequest("POST", "/ct/v1/add-chain", bytes.NewReader(body)).WithContext(ctx)
+	req := httptest.NewRequest("POST", "/ct/v1/"+endpoint, bytes.NewReader(body)).WithContext(ctx)
 	sub := &simHTTPSub{Entry: e, rec: httptest.NewRecorder(), done: make(chan struct{}), stop: cancel}
 	in.l.poolMu.Lock()
 	cur := in.l.currentPool
@@ -106,7 +127,7 @@ func (s *simSys) simHTTPSubmit(in *simInst, id int, der []byte) *simHTTPSub {
 		}
 		in.l.poolMu.Lock()
 		n := len(cur.pendingLeaves)
-		_, parked := cur.byHash[computeCacheHash(der, false, [32]byte{})]
+		_, parked := cur.byHash[computeCacheHash(e.P.Certificate, e.P.IsPrecert, e.P.IssuerKeyHash)]
 		in.l.poolMu.Unlock()
 		if n > before || parked {
 			return sub
